@@ -1954,6 +1954,7 @@ class UserSpaceImpl(*_user_space_impl_base):
         ref = self.own_refs[name]
         self.on_del_ref(name)
         newref = self.on_create_ref(name, value, is_derived, refmode)
+        newref.is_relative = is_relative    # Before live ItemSpaces get it
         self.model.clear_attr_referrers(ref)
         self.change_dynsub_refs(name)
         return newref
